@@ -221,6 +221,14 @@ def case_st(draw, model=None, seq=False):
     else:
         rc = sig * _sym(draw, K, c_lo, c_hi)
     eps = _sym(draw, K, 0.5, 2.0, special=(1.0,))
+    # argument representation: integer-valued energy scales handed over as an int64 array (np.array([[1, 2], [2, 1]]));
+    # a work array made with zeros_like(epsilons) inherited that dtype and truncated 1/sqrt(m_i m_j) (fix 8de5ede)
+    eps_int = draw(st.integers(0, 4)) == 0
+    if eps_int:
+        eps = np.zeros((K, K))
+        for a in range(K):
+            for b in range(a, K):
+                eps[a, b] = eps[b, a] = float(draw(st.integers(1, 3)))
     mmode = draw(st.sampled_from(["unequal", "unequal", "equal-1", "equal-m"])) if K > 1 else \
         draw(st.sampled_from(["equal-1", "equal-m"]))
     if mmode == "equal-1":
@@ -306,7 +314,7 @@ def case_st(draw, model=None, seq=False):
         pattern, names = "single", "single"
     probes = [(draw(st.integers(0, N * d - 1)), draw(st.integers(0, N * d - 1))) for _ in range(3 if not seq else 1)]
     return {"base": model, "d": d, "K": K, "H": Hm, "lo": lo, "tri": tri, "pos_list": pos_list, "types": types,
-            "ppp": ppp, "eps": eps, "sig": sig, "rc": rc, "masses": masses, "mmode": mmode, "steps": steps,
+            "ppp": ppp, "eps": eps, "eps_int": eps_int, "sig": sig, "rc": rc, "masses": masses, "mmode": mmode, "steps": steps,
             # the masses dictionary is looked up by type id: its insertion order carries no meaning (seeded C11-C took
             # the t-th inserted value for type t) and it may hold types that do not occur in the system
             "mass_order": list(draw(st.permutations(range(K)))) if draw(st.booleans()) else list(range(K)),
@@ -333,7 +341,8 @@ def make_hessian(case):
     masses = {k + 1: float(case["masses"][k]) for k in case.get("mass_order", range(len(case["masses"])))}
     if case.get("mass_extra"):
         masses[len(case["masses"]) + 1] = float(case["mass_extra"])      # a species the system does not contain
-    kw = dict(snapshot=snap, masses=masses, epsilons=case["eps"].copy(), sigmas=case["sig"].copy(),
+    eps = case["eps"].astype(np.int64) if case.get("eps_int") else case["eps"].copy()
+    kw = dict(snapshot=snap, masses=masses, epsilons=eps, sigmas=case["sig"].copy(),
               r_cuts=case["rc"].copy(), ppp=case["ppp"].copy())
     if not (case["shift"] and case["default_shift"]):
         kw["shiftpotential"] = case["shift"]        # documented default: True
@@ -474,7 +483,7 @@ def _one_call(case, h, snap, written):
             "mass-dict-unordered" if case.get("mass_order", []) != sorted(case.get("mass_order", [])) else "mass-dict-ordered",
             "mass-dict-extra-key" if case.get("mass_extra") else "mass-dict-exact", "images" if case["images"] else "in-box",
             "lattice-exact" if case["jf"] == 0 else "jittered", case["species"],
-            "N<=3" if N <= 3 else "N>=4"]
+            "N<=3" if N <= 3 else "N>=4", "eps-int64" if case.get("eps_int") else "eps-float64"]
     extra = {"interacting_pairs": int(len(ref.r_in)), "nudged_cutoffs": int(case["nudges"])}
 
     df = pd.read_csv(f_c)
